@@ -30,6 +30,7 @@ pub const SEMANTIC_DECISIONS: &[&str] = &[
     "state/state_by emit one clone of the lattice on [state] in every tick, also without input (dfir_pipes StatePush doc 'on finalize'; pinned by surface_singleton.rs::test_state)",
     "persist/defer_tick/union/hash-based operators/anti_join/difference/multiset_delta: emission order is not documented; compared as multisets. handoff() keeps the order (Vec buffer; pinned by surface_handoff.rs::test_handoff_basic)",
     "operators that may stop pulling an input early (chain_first_n, cross_singleton, a scan that returns None) are only fed through a handoff(), because the effect of not pulling on upstream stateful operators is undocumented (and differs between pull and push realisations)",
+    "root-level loop { } block: fires at most once per tick, iff a batch() entry received data or a non-lazy defer_tick inside it holds data; defer_tick_lazy data inside it waits until the block next fires (defer_tick/batch_lazy docs; pinned by surface_loop.rs::test_root_loop_defer_tick, test_root_loop_defer_tick_lazy, test_loop_gating_basic)",
     "run_available_sync always runs at least one tick, then continues while a non-lazy defer_tick holds data or a wake-up (context.waker()) fired during the last tick (Dfir::run_available docs, defer_tick/defer_tick_lazy docs; pinned by surface_scheduling.rs::test_tick_loop, test_nospin_issue_961)",
 ];
 
@@ -62,6 +63,10 @@ pub struct RefOut {
     /// lazy data was pending when a run_available step stopped
     pub lazy_held: bool,
     pub wake_fired: bool,
+    /// a run_available step needed >= 2 ticks because a defer_tick inside the root-level loop held data
+    pub loop_defer_multi: bool,
+    /// a run_available step stopped while only lazy data inside the root-level loop was pending
+    pub loop_lazy_held: bool,
 }
 
 fn agg_apply(a: Agg, m: &mut BTreeMap<i64, i64>, k: i64, v: i64) {
@@ -98,6 +103,7 @@ pub struct Machine<'a> {
     pub sinks: Vec<Vec<(u64, It)>>,
     woke: bool,
     pub wake_ever: bool,
+    pub loop_fired: bool,
 }
 
 impl<'a> Machine<'a> {
@@ -110,12 +116,20 @@ impl<'a> Machine<'a> {
             sinks: vec![vec![]; p.nsinks],
             woke: false,
             wake_ever: false,
+            loop_fired: false,
         }
     }
 
     /// Non-lazy deferred data waiting for the next tick?
     pub fn pending_nonlazy(&self) -> bool {
         self.p.nodes.iter().enumerate().any(|(i, n)| n.op == Op::DeferTick && !self.st[i].buf.is_empty())
+    }
+    /// Non-lazy deferred data pending inside the root-level loop block?
+    pub fn pending_nonlazy_in_loop(&self) -> bool {
+        self.p.nodes.iter().enumerate().any(|(i, n)| n.op == Op::DeferTick && self.p.node_in_loop(i) && !self.st[i].buf.is_empty())
+    }
+    pub fn pending_lazy_in_loop(&self) -> bool {
+        self.p.nodes.iter().enumerate().any(|(i, n)| n.op == Op::DeferTickLazy && self.p.node_in_loop(i) && !self.st[i].buf.is_empty())
     }
     pub fn pending_lazy(&self) -> bool {
         self.p.nodes.iter().enumerate().any(|(i, n)| n.op == Op::DeferTickLazy && !self.st[i].buf.is_empty())
@@ -137,7 +151,38 @@ impl<'a> Machine<'a> {
                 outs[i][0] = std::mem::take(&mut self.st[i].buf);
             }
         }
-        for &i in &self.order.clone() {
+        let order = self.order.clone();
+        // A root-level `loop { }` block is fused with the tick and fires at most once per tick: iff a
+        // (non-lazy) `batch()` entry received data or a non-lazy `defer_tick` inside it holds data.
+        // If it does not fire, nothing inside runs and lazily deferred data stays buffered until it
+        // does (pinned by surface_loop.rs::test_root_loop_defer_tick / _lazy).
+        let mut fire = true;
+        for pass in 0..2 {
+        if pass == 1 {
+            if !p.has_loop() {
+                break;
+            }
+            fire = p.nodes.iter().enumerate().any(|(i, nd)| {
+                p.node_in_loop(i)
+                    && match nd.op {
+                        Op::Batch => !outs[nd.ins[0].0][nd.ins[0].1].is_empty(),
+                        Op::DeferTick => !outs[i][0].is_empty(),
+                        _ => false,
+                    }
+            });
+            if !fire {
+                for (i, nd) in p.nodes.iter().enumerate() {
+                    if p.node_in_loop(i) && nd.op.is_defer() {
+                        self.st[i].buf = std::mem::take(&mut outs[i][0]);
+                    }
+                }
+                break;
+            }
+        }
+        for &i in &order {
+            if p.node_in_loop(i) != (pass == 1) {
+                continue;
+            }
             let nd = &p.nodes[i];
             if nd.op.is_defer() {
                 continue;
@@ -163,7 +208,7 @@ impl<'a> Machine<'a> {
                     }
                     vec![v]
                 }
-                Op::Identity | Op::Handoff => vec![inp(0)],
+                Op::Identity | Op::Handoff | Op::Batch => vec![inp(0)],
                 Op::Decay => vec![inp(0).into_iter().filter(fns::decay_keep).map(fns::decay).collect()],
                 Op::Enumerate(_) => {
                     let mut v = vec![];
@@ -508,9 +553,14 @@ impl<'a> Machine<'a> {
             };
             outs[i] = o;
         }
+        }
+        self.loop_fired = fire && p.has_loop();
         // tick end: deferred data moves into the deferral buffers; 'tick state is dropped
         for (i, nd) in p.nodes.iter().enumerate() {
             if nd.op.is_defer() {
+                if p.node_in_loop(i) && !fire {
+                    continue; // the loop did not run: its buffers are untouched
+                }
                 let (j, port) = nd.ins[0];
                 self.st[i].buf = outs[j][port].clone();
                 continue;
@@ -556,6 +606,8 @@ pub fn interpret(p: &Program, steps: &[Step], cap: u64) -> RefOut {
     let mut nonempty_ticks = 0;
     let mut multi = false;
     let mut lazy_held = false;
+    let mut loop_defer_multi = false;
+    let mut loop_lazy_held = false;
     for st in steps {
         let before = m.tick;
         let e = m.run_tick(&st.inputs);
@@ -567,6 +619,9 @@ pub fn interpret(p: &Program, steps: &[Step], cap: u64) -> RefOut {
             let mut n = 1;
             while m.pending_nonlazy() || m.woke() {
                 assert!(n < cap, "generator bug: program {} does not quiesce", p.id);
+                if m.pending_nonlazy_in_loop() {
+                    loop_defer_multi = true;
+                }
                 let e = m.run_tick(&empty);
                 if e > 0 {
                     nonempty_ticks += 1;
@@ -576,6 +631,9 @@ pub fn interpret(p: &Program, steps: &[Step], cap: u64) -> RefOut {
             }
             if m.pending_lazy() {
                 lazy_held = true;
+            }
+            if m.pending_lazy_in_loop() {
+                loop_lazy_held = true;
             }
         }
         out_steps.push((before, m.tick));
@@ -587,6 +645,8 @@ pub fn interpret(p: &Program, steps: &[Step], cap: u64) -> RefOut {
         multi_tick_avail: multi,
         lazy_held,
         wake_fired: m.wake_ever,
+        loop_defer_multi,
+        loop_lazy_held,
         sinks: m.sinks,
     }
 }
